@@ -34,7 +34,7 @@ ASSUMPTIONS = ["floats read as reals (FFT rounding outside the claim)", "centre 
 OUTSIDE = ["n_fft > 16, more than 3 samples / 2 records per instance", "tapers other than tukey (NotImplementedError by design)", "FFT rounding"]
 BOUNDS = {"quick": {"samples": 3, "n_fft": [4, 16], "records": "1-2", "centre_frequencies": 3, "azimuths": 2, "operators": 7},
           "thorough": {"samples": "3-4", "n_fft": [4, 8, 16], "records": "1-3", "centre_frequencies": 3, "azimuths": "2-3", "operators": 7}}
-INSTANCE_TIMEOUT = {"quick": 230, "thorough": 1700}
+INSTANCE_TIMEOUT = {"quick": 230, "thorough": 700}
 DT = 0.5
 OPS = ["konno_and_ohmachi", "parzen", "savitzky_and_golay", "linear_rectangular", "log_rectangular", "linear_triangular", "log_triangular"]
 CFG = {   # n_fft -> (centre frequencies, {operator: bandwidth})
@@ -82,6 +82,8 @@ def instances(tier):
         out.append({"name": f"azimuthal_n{nfft}", "func": "run_azimuthal", "kwargs": {"nfft": nfft}})
         for nrec in (1, 2):
             out.append({"name": f"diffuse_n{nfft}_r{nrec}", "func": "run_diffuse", "kwargs": {"nfft": nfft, "nrec": nrec}})
+    # centre frequencies requested in descending order (e.g. a period-ordered request)
+    out.append({"name": "trad_geometric_mean_n16_descending_fcs", "func": "run_traditional", "kwargs": {"method": "geometric_mean", "nfft": 16, "nrec": 1, "reverse_fcs": True}})
     out.append({"name": "lemmas", "func": "run_lemmas", "kwargs": {}})
     out.append({"name": "corollaries", "func": "run_corollaries", "kwargs": {}})
     return out
@@ -146,10 +148,12 @@ def spec_traditional(Ld, ctx, method, op, bw, fcs, nfft, recs_samples, width, L)
     return want
 
 
-def run_traditional(rep, tier, method, nfft, nrec):
+def run_traditional(rep, tier, method, nfft, nrec, reverse_fcs=False):
     Ld = LD(nfft)
     P, S = Ld["processing"], Ld["settings"]
     fcs, bws = CFG[nfft]
+    if reverse_fcs:
+        fcs = list(reversed(fcs))
     L = 3
     fcs_all = fcs
     for op in ops_for(nfft):
